@@ -1,0 +1,7 @@
+//go:build !verif
+
+package printer
+
+import "github.com/hattya/go.sh/ast"
+
+func verifOp(string, *ast.Redir) {}
